@@ -359,6 +359,46 @@ CORPUS_GRAPHS = [
 ]
 
 
+def history_stream(ctx, res, n):
+    """Histories on ONE graph object: call, edit a successor set IN PLACE (add / remove an edge; the keys stay),
+    call again ...  At every step both routines must answer for the graph AS IT IS NOW (permutation filtering).
+    State kept across calls (a memo keyed by an object the caller can still edit) shows here and nowhere else."""
+    rng = ctx.rng
+    for _ in range(n):
+        k = rng.randint(2, 5)
+        g = {v: set() for v in range(k)}
+        for _ in range(rng.randint(0, k)):
+            g[rng.randrange(k)].add(rng.randrange(k))
+        initial = [[v, sorted(ss)] for v, ss in g.items()]
+        steps = []
+        for step in range(rng.randint(3, 6)):
+            case = {"kind": "graph", "graph": [[v, sorted(ss)] for v, ss in g.items()], "nodes": "int",
+                    "history": list(steps), "initial": initial}
+            io = {}
+            try:
+                io["all"] = [list(o) for o in toposort_all(g)]
+            except Exception as e:  # noqa
+                io["all"] = {"err": type(e).__name__}
+            try:
+                r = toposort(g)
+                io["one"] = None if r is None else list(r)
+            except Exception as e:  # noqa
+                io["one"] = {"err": type(e).__name__}
+            bad, _ = graph_spec(case, io)
+            res.case(case, nontrivial=step > 0)
+            res.dist["history on one graph object"] += 1
+            if bad:
+                res.violation(f"after {step} in-place edit(s) of the same graph object: {bad}", case, observed=io)
+                return
+            u, v = rng.randrange(k), rng.randrange(k)
+            if v in g[u]:
+                g[u].discard(v)
+                steps.append(["remove", u, v])
+            else:
+                g[u].add(v)
+                steps.append(["add", u, v])
+
+
 def corpus(ctx, res):
     check_graphs(ctx, res, CORPUS_GRAPHS)
 
@@ -381,6 +421,7 @@ def run(ctx, res):
         check_graphs(ctx, res, batch, malformed=True)
     for batch in chunks(gen_prec_cases(ctx), 20000):
         check_prec(ctx, res, batch)
+    history_stream(ctx, res, ctx.budget(300, 3000))
     # find_cycle (outside the property's statement; modelled as is, tie by exact equality, counts in the distribution)
     c19_cycle.run_cycle(ctx, res)
     res.exhaustive = bool(ctx.thorough or ctx.deep)
@@ -401,7 +442,7 @@ def _verdict(case):
 def shrink(ctx, violation):
     """Greedy: drop vertices, then edges, while the property still fails."""
     case = violation["input"]
-    if case.get("kind") != "graph":
+    if case.get("kind") != "graph" or "initial" in case:  # histories are replayed as they are
         return violation
     cur = case
     changed = True
@@ -431,7 +472,35 @@ def shrink(ctx, violation):
                 expected=[list(o) for o in oracle_orders(graph_edges(cur), verts)[:20]])
 
 
+def replay_history(case):
+    """Re-run a call / edit-in-place / call history on one graph object; None or what fails at the last step."""
+    g = {v: set(ss) for v, ss in case["initial"]}
+    bad = None
+    for step in [None] + list(case["history"]):
+        if step is not None:
+            op, u, v = step
+            (g[u].add if op == "add" else g[u].discard)(v)
+        cur = {"kind": "graph", "graph": [[v, sorted(ss)] for v, ss in g.items()], "nodes": "int"}
+        io = {}
+        try:
+            io["all"] = [list(o) for o in toposort_all(g)]
+        except Exception as e:  # noqa
+            io["all"] = {"err": type(e).__name__}
+        try:
+            r = toposort(g)
+            io["one"] = None if r is None else list(r)
+        except Exception as e:  # noqa
+            io["one"] = {"err": type(e).__name__}
+        bad, _ = graph_spec(cur, io)
+        if bad:
+            return bad
+    return None
+
+
 def replay(ctx, data):
+    if isinstance(data.get("input"), dict) and "initial" in data["input"]:
+        bad = replay_history(data["input"])
+        return bad is None, ("ok: property holds on this history" if bad is None else "still fails: " + bad)
     case = data["input"]
     bad, io = _verdict(case)
     return (bad is None, f"impl={io} verdict={'ok' if bad is None else bad}")
